@@ -47,8 +47,8 @@ class Check(PropertyCheck):
     shard = 250
     rule = ("all 11 protocol versions x every command of the version x value tuples (all-minimum incl. empty variable-length "
             "fields and absent optional fields, all-maximum incl. maximal length-prefixed fields, random incl. undefined enum values); "
-            "request: real _ezsp_frame bytes, positional and keyword form; response: real serialisation fed through the real "
-            "__call__; non-trivial = the command has at least one field; distinct by (version, command, values)")
+            "request: real _ezsp_frame bytes, positional and keyword form; response: raw wire values drawn from the flat layout "
+            "(undefined enum / boolean values as an NCP could send them), encoded independently, fed through the real __call__; non-trivial = the command has at least one field; distinct by (version, command, values)")
     assumptions = ["zigpy's primitive serialisers are modelled (little-endian ints, LV bytes, lists) and compared on every case"]
 
     def setup(self):
@@ -87,9 +87,13 @@ class Check(PropertyCheck):
         out = {}
         try:
             txv = self._values(tx, rng, case["mode"])
-            rxv = self._values(rx, rng, case["mode"])
             case["_txflat"] = et.flat_schema_values(tx, txv)
-            case["_rxflat"] = et.flat_schema_values(rx, rxv)
+            # the response: RAW wire values drawn from the flat layout alone (no library type constructed, so
+            # undefined enum / boolean values reach the decoder as an NCP could send them), encoded by an
+            # independent encoder
+            rx_items = et.items_of_schema(rx)
+            rawv = et.gen_flat(rx_items, rng, case["mode"])
+            case["_rxflat"] = rawv
             proto._seq = case["seq"]
             sent = []
 
@@ -137,8 +141,8 @@ class Check(PropertyCheck):
             out["tx_kw_same"] = bytes(b_pos) == bytes(b_kw)
             out["tx_parts_ok"] = bytes(b_pos)[len(header_ref(v, case["seq"], cid)):] == parts
             # the response as the NCP would send it (real serialisers), through the real receive path
-            payload = t.serialize_dict(rxv, {}, rx) if isinstance(rx, dict) else rxv.serialize()
-            frame = bytes(proto._ezsp_frame_tx(name)) + payload
+            payload = et.flat_encode(rx_items, rawv)
+            frame = header_ref(v, case["seq"], cid) + payload
             out["rx"] = frame.hex()
             if name == "invalidCommand" or name.endswith("Handler"):
                 # callbacks (and invalidCommand, which fails a pending call by design) go to the callback path
@@ -159,9 +163,13 @@ class Check(PropertyCheck):
                 proto(frame)
                 res = fut.result()
             got = list(res) if isinstance(rx, dict) else res
-            out["rx_equal"] = (got == rxv)
-            out["rx_flat"] = enc_ivals(et.flat_schema_values(rx, got))
-            out["rx_n"] = len(et.flat_schema_values(rx, got))
+            gotflat = et.flat_schema_values(rx, got)
+            out["rx_equal"] = (enc_ivals(gotflat) == enc_ivals(rawv))
+            # the decoded values serialise back to the bytes received
+            back = t.serialize_dict(got, {}, rx) if isinstance(rx, dict) else got.serialize()
+            out["rx_back"] = (bytes(back) == payload)
+            out["rx_flat"] = enc_ivals(gotflat)
+            out["rx_n"] = len(gotflat)
         except BaseException as e:  # noqa
             out["crash"] = repr(e)
         return out
@@ -200,7 +208,9 @@ class Check(PropertyCheck):
         if not obs["tx_kw_same"]:
             return f"v{v}.{name}: positional and keyword forms differ"
         if not obs["rx_equal"]:
-            return f"v{v}.{name}: decoding the encoded response does not give the values back"
+            return f"v{v}.{name}: decoding a response does not give the values on the wire back (frame {obs['rx']})"
+        if not obs.get("rx_back", True):
+            return f"v{v}.{name}: the decoded response does not serialise back to the bytes received (frame {obs['rx']})"
         return None
 
     def nontrivial(self, case, obs):
